@@ -159,7 +159,7 @@ CHECKS["C12"] = dict(
           "the end again, must not panic, and must leave store, visit counts and handler/function logs unchanged.",
     note="The end states are those the real code produces from the state space, not hand-picked.",
     instances=dict(
-        quick=[_world("VHEndAbsorbing", DEPTH=1, QLEN=2, BUDGET=1, VISCFG=1, must_reach=["ended"]),
+        quick=[_world("VHEndAbsorbing", DEPTH=1, QLEN=2, BUDGET=1, VISCFG=1, HOSTSTOP=1, must_reach=["ended"]),
                _world("VHEndAbsorbing", DEPTH=2, QLEN=1, BUDGET=1, VISCFG=1, must_reach=["ended"]),
                _world("VHEndAbsorbing", DEPTH=2, QLEN=1, BUDGET=1, VISCFG=1, HEAD=6, STACKCAP=8, must_reach=["ended", "end-by-stop"])],
         thorough=[_world("VHEndAbsorbing", DEPTH=3, QLEN=2, BUDGET=1, VISCFG=1, workers=16, must_reach=["ended"]),
@@ -208,13 +208,15 @@ CHECKS["C09"] = dict(
                inst("root", "VHCrossProcess", {"CALLS": 1, "SEEDLENS": 6}, solver="z3", workers=8, must_reach=["compared"]),
                inst("root", "VHRandomStreams", {"FN": 2, "DRAWS": 2}, solver="cvc5", workers=2, timeout_ms=300000, must_reach=["random"]),
                inst("root", "VHRandomStreams", {"FN": 0, "DRAWS": 2}, solver="z3", workers=4, timeout_ms=300000, must_reach=["dice"]),
-               inst("root", "VHRandomStreams", {"FN": 1, "DRAWS": 2}, solver="z3", workers=4, timeout_ms=300000, must_reach=["random_range"])],
+               inst("root", "VHRandomStreams", {"FN": 1, "DRAWS": 2}, solver="z3", workers=4, timeout_ms=300000, must_reach=["random_range"]),
+               inst("root", "VHRandomStreams", {"FN": 3, "DRAWS": 4}, solver="z3", workers=4, timeout_ms=300000, must_reach=["second-draw"])],
         thorough=[inst("root", "VHRandomContracts", solver="z3", workers=8, must_reach=["dice", "random_range", "random"]),
                   inst("root", "VHDeterminism", {"CALLS": 2}, solver="z3", workers=16, maporder="symbolic", must_reach=["compared"]),
                   inst("root", "VHCrossProcess", {"CALLS": 2, "SEEDLENS": 7}, solver="z3", workers=8, must_reach=["compared"]),
                   inst("root", "VHRandomStreams", {"FN": 2, "DRAWS": 3}, solver="cvc5", workers=2, timeout_ms=600000, must_reach=["random"]),
                   inst("root", "VHRandomStreams", {"FN": 0, "DRAWS": 3}, solver="z3", workers=4, timeout_ms=900000, must_reach=["dice"]),
-                  inst("root", "VHRandomStreams", {"FN": 1, "DRAWS": 3}, solver="z3", workers=4, timeout_ms=900000, must_reach=["random_range"])]),
+                  inst("root", "VHRandomStreams", {"FN": 1, "DRAWS": 3}, solver="z3", workers=4, timeout_ms=900000, must_reach=["random_range"]),
+                  inst("root", "VHRandomStreams", {"FN": 3, "DRAWS": 4}, solver="z3", workers=4, timeout_ms=300000, must_reach=["second-draw"])]),
     assumptions=["seed strings of 1..3 arbitrary bytes", "cross-process: seeds of 12..20 characters are lowercase words ending in any two characters",
                  "hash/maphash.MakeSeed, os.Getpid, time.Now and the global math/rand source answer arbitrarily and independently per process"],
 )
@@ -257,7 +259,7 @@ CHECKS["C10"] = dict(
          "Handlers converted through reflect are exercised under C16.",
     instances=dict(
         quick=[_world("VHCommandPoll", DEPTH=1, QLEN=1, CMDCHAN=1, VISCFG=1, must_reach=["has-channel", "polled", "error-surfaced", "resumed"]),
-               _world("VHNextStep", DEPTH=1, QLEN=2, BUDGET=1, VISCFG=1, HEAD=6, must_reach=["pending", "handler-args", "fail", "end-by-stop"]),
+               _world("VHNextStep", DEPTH=1, QLEN=2, BUDGET=1, VISCFG=1, HEAD=6, HOSTSTOP=1, must_reach=["pending", "handler-args", "fail", "end-by-stop"]),
                _world("VHRevisit", STEPS=5, BUDGET=1, HEAD=6, CMDV=1, DEPTH=0, LAST=0, VISCFG=1, must_reach=["revisited", "handler-args-evaluated", "pending"]),
                _world("VHRevisit", STEPS=5, BUDGET=1, HEAD=6, **_REVISIT_BAD),
                inst("root", "VHWait", solver="cvc5", timeout_ms=300000, must_reach=["pending"])],
@@ -332,11 +334,14 @@ CHECKS["C13"] = dict(
     instances=dict(
         quick=[_mk("VHMarkupTemplate", ITEMS=2, PROPS=0, must_reach=["parsed", "attribute"]),
                _mk("VHMarkupTemplate", ITEMS=3, PROPS=0, SHORTHAND=0, workers=16, must_reach=["parsed", "attribute", "nonempty-attribute"]),
+               # scripted: three markers opened over names a/b, then closed by name in every order, a character after each
+               _mk("VHMarkupTemplate", SCRIPT=1, PROPS=0, SHORTHAND=0, workers=8, must_reach=["parsed", "attribute", "nonempty-attribute"]),
                _mk("VHCharacterPrefix", must_reach=["character"]),
                _mk("VHReplacement", must_reach=["select", "plural", "ordinal", "nomarkup", "second-nomarkup", "second-select"]),
                _mk("VHEdgeWhitespace", must_reach=["edge"]),
                _mk("VHSelfClosingTrim", must_reach=["selfclosing"])],
         thorough=[_mk("VHMarkupTemplate", ITEMS=2, PROPS=0, workers=16, must_reach=["parsed", "attribute"]),
+                  _mk("VHMarkupTemplate", SCRIPT=1, PROPS=0, SHORTHAND=0, workers=8, must_reach=["parsed", "attribute", "nonempty-attribute"]),
                   _mk("VHMarkupTemplate", ITEMS=2, PROPS=1, workers=16, solver="cvc5", must_reach=["parsed", "attribute"]),
                   _mk("VHMarkupTemplate", ITEMS=4, PROPS=0, SHORTHAND=0, workers=16, must_reach=["parsed", "attribute", "nonempty-attribute"]),
                   _mk("VHMarkupTemplate", ITEMS=5, PROPS=0, SHORTHAND=0, workers=16, must_reach=["parsed", "attribute", "nonempty-attribute"]),
@@ -364,7 +369,7 @@ CHECKS["C17"] = dict(
                inst("internal/tree", "VHCommandArgs", {"ITEMS": 2, "N": 3}, workers=8, must_reach=["rearranged", "expression", "number", "string"]),
                inst("internal/tree", "VHCommandArgs", {"ITEMS": 3, "N": 2}, workers=8, must_reach=["rearranged", "expression", "string"]),
                inst("internal/tree", "VHCommandArgs", {"ITEMS": 3, "N": 1, "WORDS": 4}, workers=8, must_reach=["rearranged", "expression", "string", "word-chunk"]),
-               _world("VHNextStep", DEPTH=1, QLEN=2, BUDGET=1, VISCFG=1, HEAD=6, must_reach=["handler-args", "fail", "end-by-stop"]),
+               _world("VHNextStep", DEPTH=1, QLEN=2, BUDGET=1, VISCFG=1, HEAD=6, HOSTSTOP=1, must_reach=["handler-args", "fail", "end-by-stop"]),
                _world("VHRevisit", STEPS=5, BUDGET=1, HEAD=6, **_REVISIT_BAD),
                inst("root", "VHCommandTwice", solver="cvc5", workers=2, must_reach=["twice"])],
         thorough=[inst("root", "VHCommandTwice", solver="cvc5", workers=2, must_reach=["twice"]),
@@ -459,17 +464,23 @@ CHECKS["C04"] = dict(
           "finite set, boolean variable, string, string concatenation), with 0..2 tags: the returned text is the concatenation in order of the "
           "literals and display forms (integral numbers without decimal point, True/False, strings verbatim), tags in order. Option groups of "
           "1..OPTS options with condition absent / symbolic boolean / non-boolean / unknown variable: every option listed in order with its text "
-          "and tags, Disabled exactly when its condition is false, an error exactly for non-boolean conditions.",
+          "and tags, Disabled exactly when its condition is false, an error exactly for non-boolean conditions. Display forms left out by that "
+          "generator (VHDisplayForms): whole numbers beyond the 32-bit range (finite set up to 2^52) are shown as integers; literals and string "
+          "values that begin with, end with or are a multi-byte character (symbolic two- and three-byte encodings other than Unicode spaces) "
+          "are shown verbatim.",
     note="Everything the ANTLR lexer decides is outside the claim: which characters survive lexing, backslash escapes, comments, where a hashtag "
          "starts, whitespace stripping of the source line. The digits of numbers are strconv's (non-integral numbers: finite set, native).",
     instances=dict(
         quick=[inst("root", "VHLineRendering", {"ELEMS": 1}, workers=4, must_reach=["line", "fault-first"]),
                inst("root", "VHLineRendering", {"ELEMS": 2}, workers=8, must_reach=["line", "fault-first"]),
-               inst("root", "VHOptionRendering", {"OPTS": 2}, workers=8, must_reach=["options", "bad-condition"])],
-        thorough=[inst("root", "VHLineRendering", {"ELEMS": 2}, workers=8, must_reach=["line", "fault-first"]),
+               inst("root", "VHOptionRendering", {"OPTS": 2}, workers=8, must_reach=["options", "bad-condition"]),
+               inst("root", "VHDisplayForms", workers=4, must_reach=["whole-number", "multi-byte-end", "multi-byte-value"])],
+        thorough=[inst("root", "VHDisplayForms", workers=4, must_reach=["whole-number", "multi-byte-end", "multi-byte-value"]),
+                  inst("root", "VHLineRendering", {"ELEMS": 2}, workers=8, must_reach=["line", "fault-first"]),
                   inst("root", "VHLineRendering", {"ELEMS": 3}, workers=16, must_reach=["line", "fault-first"]),
                   inst("root", "VHOptionRendering", {"OPTS": 2}, workers=16, must_reach=["options", "bad-condition"])]),  # OPTS=3 ran past 15 min: not registered
-    assumptions=["literal characters: printable ASCII except [ ] \\\\ : and space at the edges (markup-free, no trimming)", "integral numbers in [-255, 255]"],
+    assumptions=["literal characters: printable ASCII except [ ] \\\\ : and space at the edges (markup-free, no trimming)", "integral numbers in [-255, 255], and ten wide ones between 2^31 and 2^52",
+                 "multi-byte characters: U+0080..U+07FF and U+1000..U+CFFF minus the Unicode spaces and the block E2 80 xx"],
 )
 
 # ---------------------------------------------------------------- listener side (C01, C02; also the listener parts of C04 and C17)
@@ -483,7 +494,9 @@ def _ls(h, workers=8, **params):
 _LISTENER_NOTE = (" Listener side: the real parserListener is driven by the events of ANTLR's real ParseTreeWalker over a synthesised parse tree (real "
                   "generated context classes, terminal nodes and tokens) and the syntax tree built is compared with the one the parse tree denotes; all "
                   "callback stacks return to their entry depth.")
-CHECKS["C02"]["instances"]["quick"] += [_ls("VHExpressionListener", DEPTH=1, must_reach=["expression", "binary"])]
+CHECKS["C02"]["instances"]["quick"] += [_ls("VHExpressionListener", DEPTH=1, must_reach=["expression", "binary"]),
+                                        # left-leaning chains (a op b) op c, the shape left-associativity produces: number leaves, one operator per family
+                                        _ls("VHExpressionListener", DEPTH=2, LEAN=1, SKEW=1, must_reach=["expression", "binary"])]
 CHECKS["C02"]["instances"]["thorough"] += [_ls("VHExpressionListener", DEPTH=1, must_reach=["expression", "binary"]),
                                            _ls("VHExpressionListener", DEPTH=2, LEAN=1, workers=16, must_reach=["expression", "binary"]),
                                            _ls("VHExpressionListener", DEPTH=2, LEAN=1, SKEW=1, workers=16, must_reach=["expression", "binary"])]  # full depth 2 ran past 25 min: not registered
